@@ -288,6 +288,10 @@ func buildAdv(knobs []Knob) advTok {
 	}
 	block := func(symbols []string, facts, rules, checks [][]byte, isAuthority bool) []byte {
 		var b []byte
+		foreign := k["foreign"]
+		if strings.Contains(foreign, "version-first") { // another encoder may emit fields in a different order
+			b = append(b, fVar(3, 3)...)
+		}
 		for _, s := range symbols {
 			b = append(b, fBytes(1, []byte(s))...)
 		}
@@ -295,8 +299,11 @@ func buildAdv(knobs []Knob) advTok {
 		if isAuthority && k["block.extra"] == "context-huge" {
 			ctx = strings.Repeat("c", 200000)
 		}
-		b = append(b, fBytes(2, []byte(ctx))...)
+		if !strings.Contains(foreign, "no-context") { // the optional context field may be omitted by other encoders
+			b = append(b, fBytes(2, []byte(ctx))...)
+		}
 		switch v := k["block.version"]; {
+		case strings.Contains(foreign, "version-first"):
 		case !isAuthority || v == "":
 			b = append(b, fVar(3, 3)...)
 		case v == "absent":
@@ -589,7 +596,76 @@ func runPanel(raw []byte, pub ed25519.PublicKey) *panelRes {
 	return res
 }
 
+// family "foreign" (C09, C07): a VALID token whose bytes were produced by another encoder (optional context omitted,
+// different field order). The library must treat it like its own tokens: it verifies, re-serializes to the same
+// bytes, can be attenuated and sealed, and the sealed / attenuated tokens verify before and after a reload.
+func runForeign(c *AdvCase) (interface{}, error) {
+	t := buildAdv(c.Knobs)
+	bad := []string{}
+	wopt := biscuit.WithWorldOptions(datalog.WithMaxDuration(10 * time.Second))
+	key := biscuit.WithSingularRootPublicKey(t.pub)
+	tok, err := biscuit.Unmarshal(t.bytes)
+	if err != nil {
+		return map[string]interface{}{"bad": []string{"a valid foreign-encoded token is rejected by Unmarshal: " + err.Error()}}, nil
+	}
+	if _, err := tok.AuthorizerFor(key, wopt); err != nil {
+		bad = append(bad, "foreign-encoded token does not verify: "+err.Error())
+	}
+	if ser, err := tok.Serialize(); err != nil || !bytes.Equal(ser, t.bytes) {
+		bad = append(bad, "Unmarshal(bytes).Serialize() does not reproduce the foreign-encoded bytes")
+	}
+	verdict := func(x *biscuit.Biscuit) string {
+		a, err := x.AuthorizerFor(key, wopt)
+		if err != nil {
+			return "verify: " + err.Error()
+		}
+		a.AddPolicy(biscuit.DefaultAllowPolicy)
+		return classify(a.Authorize())
+	}
+	base := verdict(tok)
+	sealed, err := tok.Seal(nil2rand())
+	if err != nil {
+		bad = append(bad, "Seal fails: "+err.Error())
+	} else {
+		if v := verdict(sealed); v != base {
+			bad = append(bad, fmt.Sprintf("sealed token: %s, unsealed: %s", v, base))
+		}
+		if fmt.Sprint(sealed.Code()) != fmt.Sprint(tok.Code()) || fmt.Sprintf("%x", sealed.RevocationIds()) != fmt.Sprintf("%x", tok.RevocationIds()) {
+			bad = append(bad, "sealing changed content or revocation ids")
+		}
+		ser, _ := sealed.Serialize()
+		if re, err := biscuit.Unmarshal(ser); err != nil {
+			bad = append(bad, "sealed token does not reload: "+err.Error())
+		} else if v := verdict(re); v != base {
+			bad = append(bad, fmt.Sprintf("reloaded sealed token: %s, unsealed: %s", v, base))
+		}
+		if _, err := sealed.Seal(nil2rand()); err == nil {
+			bad = append(bad, "a sealed token can be sealed again")
+		}
+	}
+	bb := tok.CreateBlock()
+	bb.AddFact(biscuit.Fact{Predicate: biscuit.Predicate{Name: "extra", IDs: []biscuit.Term{biscuit.String("x")}}})
+	if t2, err := tok.Append(nil2rand(), bb.Build()); err != nil {
+		bad = append(bad, "Append fails: "+err.Error())
+	} else {
+		if v := verdict(t2); v != base {
+			bad = append(bad, fmt.Sprintf("attenuated token: %s, parent: %s", v, base))
+		}
+		if s2, err := t2.Seal(nil2rand()); err != nil || verdict(s2) != base {
+			bad = append(bad, "attenuated-then-sealed token does not verify")
+		}
+	}
+	return map[string]interface{}{"bad": bad, "base": base}, nil
+}
+
 func init() {
+	families["foreign"] = func(raw json.RawMessage) (interface{}, error) {
+		var c AdvCase
+		if err := json.Unmarshal(raw, &c); err != nil {
+			return nil, err
+		}
+		return runForeign(&c)
+	}
 	families["adv"] = func(raw json.RawMessage) (interface{}, error) {
 		var c AdvCase
 		if err := json.Unmarshal(raw, &c); err != nil {
